@@ -179,8 +179,26 @@ def task_memo_frames():
         if g is None:
             problems.append("getter %s missing" % getter)
         else:
+            full = "%s.%s" % (cls, attr)
+            aliases = {full}
+            for n in ast.walk(g):          # local names bound to the table itself
+                if isinstance(n, ast.Assign) and ast.unparse(n.value) == full:
+                    aliases |= {t.id for t in n.targets if isinstance(t, ast.Name)}
+            stored = set()                  # expressions stored at key npts
+            awrites = 0
+            for n in ast.walk(g):
+                if isinstance(n, ast.Assign):
+                    for t in n.targets:
+                        if isinstance(t, ast.Subscript) and ast.unparse(t.value) in aliases:
+                            awrites += 1
+                            if ast.unparse(t.slice) != "npts":
+                                problems.append("written at key '%s'" % ast.unparse(t.slice))
+                            stored.add(ast.unparse(n.value))
+            if awrites and writes == 0:
+                writes = awrites            # the single write goes through a local alias of the table
+            ok_rets = {"%s[npts]" % a for a in aliases} | stored
             rets = [ast.unparse(r.value) for r in ast.walk(g) if isinstance(r, ast.Return) and r.value is not None]
-            if rets != ["%s.%s[npts]" % (cls, attr)]:
+            if not rets or any(r not in ok_rets for r in rets):
                 problems.append("getter returns %s instead of the table entry at npts" % rets)
             if [a.arg for a in g.args.args] != ["npts"]:
                 problems.append("getter parameters are %s" % [a.arg for a in g.args.args])
@@ -313,6 +331,13 @@ def replay(o):
         except Exception as e:
             return True, "an interpolatory rule", "%s: %s" % (type(e).__name__, str(e)[:120])
         return any(v is False for v in facts.values()), "exact to order, nodes in [0,1] increasing, weights sum to 1", dict(facts=facts, nodes=rule[0], weights=rule[1])
+    if w["kind"] == "c10.order":
+        pairs_ = [(name, n) for name in FAMILIES for n in range(FAMILIES[name][2], 9)]
+        a = _order_run([[x, y, z] for x, y in pairs_ for z in ("x", "w")])
+        b = _order_run([[x, y, z] for x, y in pairs_ for z in ("w", "x")])
+        diff = [k for k in a if a[k] != b[k]]
+        return bool(diff), "the same rule whichever of nodes / weights is requested first (fresh interpreters)", \
+            dict(differs=diff[:4], nodes_first={k: a[k] for k in diff[:2]}, weights_first={k: b[k] for k in diff[:2]})
     if w["kind"] == "c10.integrate":
         p, cells, variant = w["p"], tuple(w["cells"]), w["variant"]
         U = vec(p, cells, variant)
